@@ -37,7 +37,8 @@ FLOORS = {'quick': {'evaluations': 20000, 'distinct_nontrivial': 2000,
           'thorough': {'evaluations': 45000, 'distinct_nontrivial': 5000,
                        'monitors': {'M2._get_chunk_bounds.checked': 1000, 'M1.checked': 1000}}}
 ASSUMPTIONS = ['two simultaneous passes over one reader are advanced like zip() does (the round in which the first pass ends is not started for the second): the passes of a compressed reader share one decoder pool and the unchanged code cannot shut it down twice',
-               'a reader may refuse a recording without samples; if it accepts one, its bounds are [0] and it yields no interval']
+               'a reader may refuse a recording without samples; if it accepts one, its bounds are [0] and it yields no interval',
+               'when a flat reader is given both n_channels_dat and n_channels, the sample count is that of the file as n_channels_dat describes it (phy: the number of channels in the raw file)']
 NSHARDS = 16
 
 
@@ -79,6 +80,11 @@ def run_shard(desc, ctx):
         if idx % ns == sh:
             run_case({'kind': 'flat_reader', 'sizes': sizes, 'chunks': [7.4, 2.3, 5.2, 3.45, 12.49, 6.5, 7.5, 1.2],
                       'same_name': i_f % 2 == 0}, ctx)
+    # part files that hold no complete row (only stray bytes): zero samples, in the middle, at the end, twice in a row
+    for sizes in ([4, 4, 0, 4, 1], [3, 0, 0, 2], [5, 0], [2, 0, 7, 0, 1]):
+        idx += 1
+        if idx % ns == sh:
+            run_case({'kind': 'flat_reader', 'sizes': sizes, 'chunks': [1, 2, 3, 4, 5], 'stray': True}, ctx)
     # large random lengths, judged by interval arithmetic (no data array)
     rng = np.random.default_rng([desc['seed'], sh, 16])
     for _ in range(300 if desc['tier'] == 'quick' else 20000):
@@ -322,6 +328,16 @@ def _case_flat_reader(case, ctx):
             if rd.n_samples != n:
                 ctx.violation('bad_reader_chunk_bounds', sub, 'n_samples %r != %d' % (rd.n_samples, n))
             _check_iter(rd, A, sub, ctx, cache=True)
+            if cs_f == case['chunks'][0]:
+                # the caller forwards a params dictionary: n_channels_dat is the number of channels in the file, n_channels the
+                # number of channels kept for sorting - the file layout is given by the former
+                r2 = call(get_ephys_reader, list(paths), sample_rate=cs_f / 600., dtype=np.int16, n_channels_dat=2, n_channels=1, offset=offset)
+                ctx.count(1, cell=('flat_reader', 'both_channel_keywords'))
+                if r2.ok:
+                    m_ = _check_bounds(r2.value.chunk_bounds, sizes, cs)
+                    if m_ or r2.value.n_samples != n:
+                        ctx.violation('bad_reader_chunk_bounds', dict(sub, both_channel_keywords=True),
+                                      'opened with n_channels_dat=2 (file) and n_channels=1 (kept): %s' % (m_ or 'n_samples %r != %d' % (r2.value.n_samples, n)))
             if cs >= 3 and len(sizes) >= 2:
                 # the reader handed over as an array-like object to a second reader with a shorter chunk length
                 cs2 = max(1, cs // 2)
@@ -418,6 +434,19 @@ def _case_empty_reader(case, ctx):
         ri = call(lambda: [(int(a), int(b)) for a, b in rd.iter_chunks()])
         if ri.ok and _tiles(ri.value, 0):
             ctx.violation('iter_chunks_not_tiling', case, 'recording without samples: %s' % ri.value)
+    # samples but no channel (what traces[:, []] is): the sample axis is chunked as usual
+    for n_, cs_ in ((11, 4), (5, 5), (1, 3)):
+        r = call(get_ephys_reader, np.zeros((n_, 0), dtype=np.int16), sample_rate=cs_ / 600.)
+        if not r.ok:
+            ctx.note('channel_less_array_reader_refused')
+            continue
+        ctx.count(1, cell=('empty_reader', 'no_channels'))
+        m_ = _check_bounds(r.value.chunk_bounds, [n_], cs_)
+        if m_:
+            ctx.violation('bad_reader_chunk_bounds', dict(case, shape=[n_, 0]), 'array of shape (%d, 0): %s' % (n_, m_))
+        ri = call(lambda: [(int(a), int(b)) for a, b in r.value.iter_chunks()])
+        if ri.ok and _tiles(ri.value, n_):
+            ctx.violation('iter_chunks_not_tiling', dict(case, shape=[n_, 0]), 'array of shape (%d, 0): %s' % (n_, _tiles(ri.value, n_)))
 
 
 def _case_cbin_damaged(case, ctx):
